@@ -13,7 +13,7 @@ SPEC = dict(
         quick=[
             _e("c26_values", "request blocks 'Content-Length:' b b CRLF | 'Content-Length: 7' b b CRLF | 'Content-Length: 7,' b ',' b CRLF" + _cfg, _out),
             _e("c26_fields", "request and reply blocks 'Content-Length: 1' b CRLF 'Host: h' CRLF 'Content-Length: 1' b CRLF | 'Content-Length: 5' CRLF 'Content-Length: 5' CRLF 'content-length: ' b CRLF" + _cfg, _out[1:]),
-            _e("c26_big", "request blocks 'Content-Length: 922337203685477580' b b CRLF | 'Content-Length: 9223372036854775807' CRLF 'Content-Length: 922337203685477580' d CRLF | "
+            _e("c26_big", "request blocks 'Content-Length: 922337203685477580' d CRLF | 'Content-Length: 9223372036854775807' b CRLF | 'Content-Length: 9223372036854775807' CRLF 'Content-Length: 922337203685477580' d CRLF | "
                "'Content-Length: 00000000000000000000012' CRLF 'Content-Length: 1' b CRLF" + _cfg, _out),
             _e("c26_interp", "ContentLengthInterpreter alone: checkField(v), v = 0..2 bytes | checkField('4' b), checkField('4' b); b any byte but NUL; relaxed_header_parser in {0,1}",
                ["used", "used-duplicates", "bad"]),
@@ -21,12 +21,11 @@ SPEC = dict(
         thorough=[
             _e("c26_values", "request blocks 'Content-Length:' b b b CRLF | 'Content-Length: 7' b b b CRLF | 'Content-Length: 7,' b b ',' b CRLF" + _cfgT, _out),
             _e("c26_fields", "request and reply blocks 'Content-Length:' b b CRLF 'Host: h' CRLF 'Content-Length: 1' b CRLF | 'Content-Length: 5' CRLF 'Content-Length:' b b CRLF 'content-length: ' b CRLF" + _cfg, _out[1:]),
-            _e("c26_big", "request blocks 'Content-Length: 92233720368547758' d b b CRLF | 'Content-Length: 9223372036854775807' CRLF 'Content-Length: 922337203685477580' d CRLF | "
-               "'Content-Length: 00000000000000000000012' CRLF 'Content-Length: ' b d CRLF" + _cfg, _out),
+            _e("c26_big", "as quick with the last family 'Content-Length: 00000000000000000000012' CRLF 'Content-Length: ' b d CRLF, plus 'Content-Length: 922337203685477580' d b CRLF" + _cfg, _out),
             _e("c26_interp", "ContentLengthInterpreter alone: checkField(v), v = 0..3 bytes | checkField('4' b), checkField('4' b); b any byte but NUL; relaxed_header_parser in {-1,0,1}",
                ["used", "used-duplicates", "bad"]),
         ]),
-    timeout=dict(quick=400, thorough=2400),
+    timeout=dict(quick=900, thorough=3000),
     stubs=["StatHist::enumInit/count are no-ops (per-header statistics histograms; StatHist.cc not linked)",
            "SquidConfig Config is the real global, zero-initialised, relaxed_header_parser set by the harness",
            "compat/xstring.cc is the real file with its xstrdup renamed away (xstrdup is an engine model)",
